@@ -262,4 +262,8 @@ func Stress(out string, n int) {
 	for b := 0; b < (n+1)/2; b++ {
 		w.Put(stressTCP(n+b+1, 6, 150*time.Millisecond))
 	}
+	// the library's own servers and clients of all four transports over loopback sockets
+	for i, tr := range []string{"udp", "dtls", "tcp", "tls"} {
+		w.Put(stressReal(tr, 2*n+i+1, 6, 200*time.Millisecond))
+	}
 }
